@@ -58,7 +58,7 @@ type msgGen struct {
 	anyInner []string
 	// anyInnerDeep lists message types that themselves hold Any fields (an Any inside an Any)
 	anyInnerDeep []string
-	maxDepth int
+	maxDepth     int
 }
 
 func (g *msgGen) idx(n int) int {
